@@ -573,6 +573,30 @@ def r106(facts, res):
                     break
             if not tested:
                 untested.append(bb)
+        # "was new" may also be established by a lookup done first: the absent side of tokens.get_index_of(..) / get(..) / contains(..)
+        for bb, t in b.calls():
+            c = callee_of(t)
+            if c is None or c['name'] not in ('get_index_of', 'get', 'get_full', 'contains') or not (c.get('self_ty') or '').startswith('indexmap::set::IndexSet<alloc::string::String'):
+                continue
+            if 'tokens' not in field_names(t['args'][0]) or t['ret'] is None:
+                continue
+            tt = b.term(t['ret'])
+            if tt['k'] != 'switch':
+                continue
+            pl = op_place(tt['on'])
+            if pl is None:
+                continue
+            src = b.root(pl['l'], through=(), stop_named=False)[0]
+            for _db, kind, rv in b.defs().get(pl['l'], ()):
+                if kind == 'stmt' and 'discr' in rv:
+                    src = rv['discr']['l']          # `match lookup { None => .., Some(_) => .. }` switches on the discriminant
+            if src != t['dest']['l']:
+                continue
+            absent = [x for v, x in tt['targets'] if v == 0]
+            if absent:
+                new_regions.append((bb, absent[0]))
+        # an insertion whose own result is not looked at is fine inside such an "absent" region
+        untested = [ib for ib in untested if not any(b.dominates(ts, ib) for _lb, ts in new_regions)]
         for pb, pt in pushes:
             n += 1
             key = 'span-push:%s@L%d' % (strip_generics(b.path).split('::')[-1], [x[0] for x in pushes].index(pb))
